@@ -182,6 +182,17 @@ CLAIMED['C15'] = (
     'numeric / string / enum-const trees are exhausted, array / object / composition are explored (stated); ten known findings '
     '(refused satisfiable schemas, allOf / oneOf / null semantics, empty property name) are reported individually, not hidden',
     'symbolic execution of the real code (CrossHair primitives + z3) with the schema as symbolic input and a validated mini JSON-Schema validator, concrete replay')
+CLAIMED['C14'] = (
+    'Symbolic execution of the real encoder and parser on the round trip instance -> json.dumps(cls=JSONEncoder) -> same class: '
+    'every value of the JSON-faithful domain is built from solver integers (code points, date / clock fields, UTC offset minutes in '
+    '-1439..1439, timedelta days / seconds / microseconds, the two halves of a UUID, Decimal coefficient and exponent) that are '
+    'split into regions by explicit branches (sign, zero, boundaries) so that the solver must produce a model in every region, then '
+    'realised; the text must be standard JSON and parse back to an equal instance (same type per field, same UTC offset); '
+    'containers, nested data classes and lists / maps of temporal values included.',
+    'solver-driven region coverage, NOT exhaustive over the value domain (isoformat / strptime / json are C code that concretise): '
+    'every obligation reports EXPLORED-NO-VIOLATION; Decimal <-> float text conversion is exercised on realised values only; '
+    'known finding K-C14-float-infinity-non-standard-json is reported, not hidden',
+    'symbolic execution of the real code (CrossHair primitives + z3) with explicit region splits, concrete replay')
 NOT_APPLICABLE = {}
 
 def main():
